@@ -189,7 +189,30 @@ func IsPathValid(path string) error {
 
 // GetParentPath returns the immediate parent path of the specified path; empty string if "/" is given
 func GetParentPath(path string) string {
-	i := strings.LastIndex(path, "/")
+	// find the last '/' that separates two elements, i.e. is neither escaped nor inside a key's brackets
+	i := -1
+	var inBrackets, escape bool
+	for j := 0; j < len(path); j++ {
+		switch path[j] {
+		case '[':
+			inBrackets = true
+			escape = false
+		case ']':
+			if !escape {
+				inBrackets = false
+			}
+			escape = false
+		case '\\':
+			escape = !escape
+		case '/':
+			if !inBrackets && !escape {
+				i = j
+			}
+			escape = false
+		default:
+			escape = false
+		}
+	}
 	if i <= 0 {
 		return ""
 	}
